@@ -15,16 +15,17 @@
 //
 // Oracle (from the statement; reference = plain net/http ResponseWriter semantics: status and
 // headers are fixed by the first of WriteHeader/Write/Flush):
-//  (i)   the handler completed and the wrapper did not time out  => the client sees exactly the
-//        script's complete result: status, headers, whole body (flushed chunks + rest, in order);
-//  (ii)  once the wrapper has emitted the timeout result (503/499), NOTHING further of the handler
-//        reaches the client - no byte, whether by Write or by Flush - nor after ServeHTTP returned;
-//  (iii) all-or-nothing is demanded only when nothing had been streamed by a Flush before the
-//        timeout result (a flush before the deadline streams a partial response by design: then the
-//        streamed part must be a whole-chunk prefix of the script's body under the script's status
-//        and headers, and only (ii) is demanded beyond that);
-//  (iv)  two requests through one TimeoutHandler: every response carries only its own handler's
-//        bytes, and each of them satisfies (i)-(iii) on its own.
+//
+//	(i)   the handler completed and the wrapper did not time out  => the client sees exactly the
+//	      script's complete result: status, headers, whole body (flushed chunks + rest, in order);
+//	(ii)  once the wrapper has emitted the timeout result (503/499), NOTHING further of the handler
+//	      reaches the client - no byte, whether by Write or by Flush - nor after ServeHTTP returned;
+//	(iii) all-or-nothing is demanded only when nothing had been streamed by a Flush before the
+//	      timeout result (a flush before the deadline streams a partial response by design: then the
+//	      streamed part must be a whole-chunk prefix of the script's body under the script's status
+//	      and headers, and only (ii) is demanded beyond that);
+//	(iv)  two requests through one TimeoutHandler: every response carries only its own handler's
+//	      bytes, and each of them satisfies (i)-(iii) on its own.
 package main
 
 import (
@@ -65,6 +66,7 @@ type fSpec struct {
 	Parent string // none | cancel-during (first request)
 	P, T   int    // explicit bounds (0: the tier's defaults)
 	Chain  string // "" bare handler.TimeoutHandler | tr / all / mw: the middleware chain rest/engine.go assembles (chain.go)
+	Hdr    string // "" | name of a NON-exempt request-header form (reqhdr.go) set on every request
 }
 
 func (s fSpec) name() string {
@@ -81,6 +83,9 @@ func (s fSpec) name() string {
 	}
 	if s.Parent != "none" && s.Parent != "" {
 		n += "-parent:" + s.Parent
+	}
+	if s.Hdr != "" {
+		n += "-hdr:" + s.Hdr
 	}
 	return n
 }
@@ -130,8 +135,11 @@ type frec struct {
 	snap  http.Header
 	code  int
 	wrote bool
-	body  strings.Builder
+	body  strings.Builder // compressed form (reqhdr.go): a large fill run is kept as "{x*N}"
 }
+
+// bodyStr: what the client holds, in canonical compressed form
+func (r *frec) bodyStr() string { return canon(r.body.String()) }
 
 func (r *frec) role() byte {
 	if vsched.ThreadID() == r.st.srvTid {
@@ -164,9 +172,10 @@ func (r *frec) WriteHeader(c int) {
 
 func (r *frec) Write(p []byte) (int, error) {
 	vsched.Op("client-Write")
-	r.o.add(tle{req: r.req, what: 'w', role: r.role(), data: string(p)})
+	data := compress(p)
+	r.o.add(tle{req: r.req, what: 'w', role: r.role(), data: data})
 	r.commit(200)
-	r.body.Write(p)
+	r.body.WriteString(data)
 	return len(p), nil
 }
 
@@ -239,6 +248,11 @@ func flushScenario(s fSpec) vx.Scenario {
 						w.WriteHeader(invalidCode(byte(a)))
 					case 'P':
 						panic("handler panic")
+					default:
+						if isBig(byte(a)) { // a large chunk, no Flush
+							_, err := w.Write(bigChunk(byte(a)))
+							werr = err != nil
+						}
 					}
 					o.add(tle{req: i, what: 'd', idx: base + j, act: byte(a), werr: werr})
 				}
@@ -264,6 +278,7 @@ func flushScenario(s fSpec) vx.Scenario {
 				ctx = parent
 			}
 			req, _ := http.NewRequestWithContext(ctx, http.MethodGet, fmt.Sprintf("/%d", i), nil)
+			applyHdr(req, s.Hdr)
 			st.started = true
 			st.srvTid = vsched.ThreadID()
 			st.startedAt = vsched.Elapsed()
@@ -364,6 +379,11 @@ func reference(req int, q fReq, withLate bool, panicAt int, recovered bool) refR
 			case 'F':
 				committed = true
 				r.flushes = true
+			default:
+				if isBig(byte(a)) {
+					committed = true
+					r.chunks = append(r.chunks, bigToken(byte(a)))
+				}
 			}
 			// Z, Y, X that completed: an invalid status code that the writer dropped (after the
 			// response was committed net/http drops it too): no effect
@@ -383,6 +403,20 @@ func reference(req int, q fReq, withLate bool, panicAt int, recovered bool) refR
 }
 
 func judgeFlush(s fSpec, e *vsched.Exec, o *fObs) vx.Verdict {
+	if s.Hdr != "" && o != nil {
+		// only websocket-upgrade and event-stream requests are exempt: this request is neither, its handler
+		// must run under start+timeout (the caller's context has no deadline in this family)
+		for i, st := range o.rq {
+			if st.hctx != nil && !st.dlOK {
+				f, _ := findForm(s.Hdr)
+				by := "on its own goroutine"
+				if st.handlerTid == st.srvTid {
+					by = "on the caller's thread: the timeout middleware stepped aside"
+				}
+				return vx.Verdict{Class: "non-exempt-request-bypasses-timeout", Msg: fmt.Sprintf("request %d with headers [%s] is neither a websocket upgrade nor an event-stream request, yet its handler ran under a context without deadline (%s); outcome %s", i, f.String(), by, e.Outcome), Sig: "bypassed"}
+			}
+		}
+	}
 	if e.Outcome == "deadlock" && o != nil {
 		for i, st := range o.rq {
 			if st.started && !st.returned {
@@ -401,7 +435,7 @@ func judgeFlush(s fSpec, e *vsched.Exec, o *fObs) vx.Verdict {
 		for j := range o.rq {
 			if j != t.req && strings.Contains(t.data, fmt.Sprintf("<%d.", j)) {
 				return vx.Verdict{Class: "cross-request-bytes", Msg: fmt.Sprintf("the connection of request %d received %q: bytes written by the handler of request %d (client of request %d now holds %q, client of request %d holds %q)",
-					t.req, t.data, j, t.req, o.rq[t.req].rec.body.String(), j, o.rq[j].rec.body.String())}
+					t.req, t.data, j, t.req, o.rq[t.req].rec.bodyStr(), j, o.rq[j].rec.bodyStr())}
 			}
 		}
 	}
@@ -473,8 +507,8 @@ func judgeFlushReq(s fSpec, i int, o *fObs) vx.Verdict {
 	handlerPanicked := panicAt >= 0 || q.End == "panic"
 	recovered := handlerPanicked && hasRecover
 	// what the handler's thread pushed to the client before / after the timeout result
-	var streamed, late, afterRet strings.Builder
-	streamCommit, lateTouch := false, 0
+	var streamed, late, afterRet cbuf
+	streamCommit, lateTouch, firstStream := false, 0, -1
 	firstLate := -1
 	for p, t := range o.tl {
 		if t.req != i || t.role != 'H' {
@@ -494,9 +528,22 @@ func judgeFlushReq(s fSpec, i int, o *fObs) vx.Verdict {
 			lateTouch++
 			afterRet.WriteString(t.data)
 		default:
+			if !streamCommit {
+				firstStream = p
+			}
 			streamCommit = true
 			streamed.WriteString(t.data)
 		}
+	}
+	// output of an unfinished handler may be at the client before the timeout result only because the
+	// handler itself asked for it (Flush): (iii)
+	unflushed := func() *vx.Verdict {
+		for _, p := range issued {
+			if o.tl[p].act == 'F' && p < firstStream {
+				return nil
+			}
+		}
+		return &vx.Verdict{Class: "unflushed-output-before-timeout-result", Msg: fmt.Sprintf("%sthe handler never called Flush, yet %q (status %d, headers %s) had been sent to the client when the work was abandoned: the client holds code=%d body=%q, neither the complete result nor the timeout result", pfx, streamed.String(), rec.code, hdrStr(rec.snap), rec.code, rec.bodyStr())}
 	}
 	// (ii) nothing of the handler after the timeout result
 	if late.Len() > 0 {
@@ -516,10 +563,10 @@ func judgeFlushReq(s fSpec, i int, o *fObs) vx.Verdict {
 				why = fmt.Sprintf("Write of %s was made after the timeout result (returned error=%v) and still reached the client", token(i, idx), o.tl[p].werr)
 			}
 		}
-		return vx.Verdict{Class: class, Msg: fmt.Sprintf("%safter the wrapper emitted %d the client received %q from the handler (%s); client holds code=%d body=%q", pfx, emitCode, late.String(), why, rec.code, rec.body.String())}
+		return vx.Verdict{Class: class, Msg: fmt.Sprintf("%safter the wrapper emitted %d the client received %q from the handler (%s); client holds code=%d body=%q", pfx, emitCode, late.String(), why, rec.code, rec.bodyStr())}
 	}
 	if afterRet.Len() > 0 {
-		return vx.Verdict{Class: "write-after-return", Msg: fmt.Sprintf("%s%q reached the client after ServeHTTP had returned (body now %q)", pfx, afterRet.String(), rec.body.String())}
+		return vx.Verdict{Class: "write-after-return", Msg: fmt.Sprintf("%s%q reached the client after ServeHTTP had returned (body now %q)", pfx, afterRet.String(), rec.bodyStr())}
 	}
 	touch := ""
 	if lateTouch > 0 {
@@ -530,7 +577,7 @@ func judgeFlushReq(s fSpec, i int, o *fObs) vx.Verdict {
 	if i == 0 && cancelAt >= 0 && (ret < 0 || cancelAt < ret) {
 		ctxEnded, clientCancelled = true, true
 	}
-	body := rec.body.String()
+	body := rec.bodyStr()
 	full := reference(i, q, q.End == "ctxwait" || q.End == "stall", panicAt, recovered)
 	hdrA, hdrL, hdrM := rec.snap.Get("X-A"), rec.snap.Get("X-Late"), rec.snap.Get("X-MW")
 	if recovered {
@@ -540,7 +587,7 @@ func judgeFlushReq(s fSpec, i int, o *fObs) vx.Verdict {
 	checkStream := func() *vx.Verdict {
 		k, acc := 0, ""
 		for acc != streamed.String() && k < len(full.chunks) {
-			acc += full.chunks[k]
+			acc = canon(acc + full.chunks[k])
 			k++
 		}
 		if acc != streamed.String() {
@@ -573,6 +620,9 @@ func judgeFlushReq(s fSpec, i int, o *fObs) vx.Verdict {
 			}
 			return vx.Verdict{Sig: "repanic"}
 		}
+		if v := unflushed(); v != nil {
+			return *v
+		}
 		if v := checkStream(); v != nil {
 			return *v
 		}
@@ -601,6 +651,9 @@ func judgeFlushReq(s fSpec, i int, o *fObs) vx.Verdict {
 			}
 			return vx.Verdict{Class: "mixture", Msg: fmt.Sprintf("%stimeout result %d emitted, nothing flushed before, but the client saw code=%d headers=%s body=%q", pfx, emitCode, rec.code, hdrStr(rec.snap), body)}
 		}
+		if v := unflushed(); v != nil {
+			return *v
+		}
 		if v := checkStream(); v != nil {
 			return *v
 		}
@@ -625,7 +678,7 @@ func judgeFlushReq(s fSpec, i int, o *fObs) vx.Verdict {
 				return *v
 			}
 		}
-		want := strings.Join(full.chunks, "")
+		want := canon(strings.Join(full.chunks, ""))
 		if !rec.wrote && want == "" && full.code == 200 && !full.needA && !full.needL && !needM {
 			return vx.Verdict{Sig: "full-empty" + touch}
 		}
